@@ -1,4 +1,5 @@
 """C02 — .slp -> .slpp -> .slp is lossless under every compression option (structural)."""
+import re
 import containers
 import layout as L
 import model
@@ -118,27 +119,51 @@ def raw_decoder_rule(F, rep, rule="entry.raw-decoder"):
 
 
 def gecko_writer_ok(F, wb):
-    """gecko_codes.raw = actual_size as 4 little-endian bytes, then the blob, appended under that name"""
+    """gecko_codes.raw = actual_size as 4 little-endian bytes, then the blob, appended under that name. The buffer is a local
+    Vec<u8> whose contents are the concatenation, in program order, of its initial contents (`x.to_le_bytes().to_vec()`,
+    `Vec::from(..)`, or nothing for `Vec::new()` / `Vec::with_capacity(..)`) and every `extend_from_slice` / `write_all` /
+    `extend` on it; no other mutable use of the buffer may exist."""
     root = wb["tir"]["value"]
     helpers = peppifmt.append_helpers(F)
+
+    def seg(e):
+        e = strip(e)
+        while e.get("k") == "AddrOf":
+            e = strip(e["e"])
+        if e.get("k") == "MethodCall" and e["method"] in ("to_vec", "into", "to_owned", "as_slice", "as_ref", "iter", "copied", "cloned") and not e.get("args"):
+            return seg(e["recv"])
+        if e.get("k") == "MethodCall" and e["method"] == "to_le_bytes" and (tir.place(e["recv"]) or "").endswith(".actual_size"):
+            return ("le", tir.place(e["recv"]).rsplit(".", 1)[0])
+        p = tir.place(e)
+        if p and p.endswith(".bytes"):
+            return ("blob", p.rsplit(".", 1)[0])
+        return ("?", tir.pretty(e)[:40])
+
     for n in tir.walk(root):
-        if n.get("k") == "Let" and n["pat"].get("k") == "Bind" and n.get("init") is not None:
+        if n.get("k") == "Let" and n["pat"].get("k") == "Bind" and n.get("init") is not None and (n["pat"].get("ty") or "").startswith("std::vec::Vec<u8"):
             i = strip(n["init"])
-            le = None
+            segs = None
             if i.get("k") == "MethodCall" and i["method"] in ("to_vec", "into", "to_owned"):
-                le = strip(i["recv"])
-            elif i.get("k") == "Call" and (declared(i) or "").endswith("From::from") and len(i["args"]) == 1 and (i.get("ty") or "").startswith("std::vec::Vec<u8"):
-                le = strip(i["args"][0])       # Vec::from([u8; 4])
-            if le is not None:
-                if le.get("k") == "MethodCall" and le["method"] == "to_le_bytes" and (tir.place(le["recv"]) or "").endswith(".actual_size"):
-                    base = tir.place(le["recv"]).rsplit(".", 1)[0]
-                    bid = n["pat"]["id"]
-                    ext = [x for x in tir.walk(root) if x.get("k") == "MethodCall" and x["method"] in ("write_all", "extend_from_slice", "extend") and strip(x["recv"]).get("id") == bid]
-                    muts = [x for x in tir.walk(root) if x.get("k") == "MethodCall" and strip(x["recv"]).get("id") == bid and (x["recv"].get("aty") or "").startswith("&mut")]
-                    app = [x for x in tir.walk(root) if x.get("k") == "Call" and (declared(x) or "") in helpers and any(strip(a).get("id") == bid for a in x["args"])
-                           and any(strip(a).get("k") == "Lit" and strip(a).get("v") == "gecko_codes.raw" for a in x["args"])]
-                    if len(ext) == 1 and len(muts) == 1 and tir.place(ext[0]["args"][0]) == base + ".bytes" and len(app) == 1:
-                        return True
+                segs = [seg(i)]
+            elif i.get("k") == "Call" and (declared(i) or "").endswith("From::from") and len(i["args"]) == 1:
+                segs = [seg(i["args"][0])]       # Vec::from([u8; 4])
+            elif i.get("k") == "Call" and re.search(r"Vec(::<.*>)?::(new|with_capacity)$", declared(i) or i.get("path") or ""):
+                segs = []
+            if segs is None:
+                continue
+            bid = n["pat"]["id"]
+            muts = [x for x in tir.walk(root) if x.get("k") == "MethodCall" and strip(x["recv"]).get("id") == bid and (x["recv"].get("aty") or "").startswith("&mut")]
+            other = [x for x in tir.walk(root) if x.get("k") == "AddrOf" and x.get("mut") and strip(x["e"]).get("id") == bid]
+            okm = True
+            for x in muts:
+                if x["method"] in ("write_all", "extend_from_slice", "extend") and len(x["args"]) == 1:
+                    segs.append(seg(x["args"][0]))
+                else:
+                    okm = False
+            app = [x for x in tir.walk(root) if x.get("k") == "Call" and (declared(x) or "") in helpers and any(strip(a).get("id") == bid or (strip(a).get("k") == "AddrOf" and strip(strip(a)["e"]).get("id") == bid) for a in x["args"])
+                   and any(strip(a).get("k") == "Lit" and strip(a).get("v") == "gecko_codes.raw" for a in x["args"])]
+            if okm and not other and len(segs) == 2 and segs[0][0] == "le" and segs[1][0] == "blob" and segs[0][1] == segs[1][1] and len(app) == 1:
+                return True
     return False
 
 
